@@ -98,7 +98,7 @@ CLAIMED = {
                 "judge_sound — the judge means exactly that. Tie/oracle: every operation type × several table sizes is run in a child process "
                 "under strace (sees pyarrow's C++ parquet writes); the proved-sound Lean judge is evaluated on EVERY prefix of the REAL trace, "
                 "and each written file's event sequence is compared with the model's lowering. Witness examples show the judge rejecting a "
-                "missing file fsync, a missing directory fsync and a pointer written first.",
+                "missing file fsync, a missing directory fsync and a pointer written first. fsync_failure_no_flip — when the fsync of ANY referenced file fails (every number of files, every failing position) the commit trace contains no rename onto the pointer; checked on the library by failing the k-th file fsync of append / two-append / delete commits for every k.",
         "design_ref": "§6 C16",
         "note": "Disk/kernel honour fsync (assumed). Pre-existing files are taken as durable; ancestor directories' durability is an assumption (§7).",
         "technique": "Lean 4 theorems on a power-loss model + a proved-sound judge run on real strace traces",
@@ -180,7 +180,7 @@ CLAIMED = {
                 "takeover_only_after_lease; superseded_observes_loss; held_answer_sound; owned_object_persists_partial (conditional delete) and "
                 "owned_object_persists_refuted — the machine-checked witness of the release-spans-takeover defect, replayed on the real "
                 "S3LockProvider (known finding). Tie: real FileLock instances on the REAL kernel and the real S3LockProvider on the in-memory S3 "
-                "run under the scheduler with a virtual clock and are compared step by step with lock.frun / lock.srun; 8-process stress.",
+                "run under the scheduler with a virtual clock and are compared step by step with lock.frun / lock.srun; 8-process stress. s3_timeout_bound — a contender blocked for its whole timeout gets TimeoutError in [timeout, timeout + one poll interval] for every sequence of jitter draws (pollLoop tied to the real acquire loop via lock.poll); unclamped_backoff_overshoots — witness for an unclamped exponential back-off. Open()→flock() gap sweep and lock-file identity on the real kernel.",
         "design_ref": "§6 C19",
         "note": "Kernel flock semantics are an assumed contract sampled every run on the real kernel; the S3 heartbeat thread is replaced by a "
                 "schedulable renew event; the polling (non-CAS) provider is documented best-effort and not claimed.",
